@@ -260,26 +260,39 @@ Section Run.
       + discriminate.
   Qed.
 
-  (* gap / dobj < tol with dobj > 0 : objective within a factor (1 + tol) of the optimum *)
+  (* the stopping rule `gap / dobj < tol || gap <= 0` with dobj > 0 : objective within a factor
+     (1 + tol) of the optimum; through the second disjunct the iterate is exactly optimal *)
   Lemma stop_test_near_optimal w d :
-    0 < d -> lower_bound d -> stop_test ROps (pobj_of ROps X yc lam w - d) d tol = true ->
+    0 <= tol -> 0 < d -> lower_bound d -> stop_test ROps (pobj_of ROps X yc lam w - d) d tol = true ->
     forall w', length w' = p -> pobj_of ROps X yc lam w <= (1 + tol) * pobj_of ROps X yc lam w'.
   Proof.
-    intros Hd Hlb Hst w' Hw'. unfold stop_test in Hst. cbn [oltb odiv ROps] in Hst.
-    apply Rltb_true in Hst. specialize (Hlb w' Hw').
+    intros Htol Hd Hlb Hst w' Hw'. unfold stop_test in Hst. cbn [oltb oleb odiv o0 ROps] in Hst.
+    specialize (Hlb w' Hw').
     set (P := pobj_of ROps X yc lam w) in *. set (P' := pobj_of ROps X yc lam w') in *.
-    assert (Hgap : P - d < tol * d).
-    { apply (Rmult_lt_compat_r d) in Hst; [|exact Hd]. unfold Rdiv in Hst.
-      rewrite Rmult_assoc, Rinv_l in Hst by lra. lra. }
-    assert (0 <= P) by (apply pobj_nonneg; assumption).
-    destruct (Rle_dec 0 (1 + tol)) as [Ht|Ht]; nra.
+    assert (0 <= P') by (apply pobj_nonneg; assumption).
+    apply orb_prop in Hst. destruct Hst as [Hst|Hst].
+    - apply Rltb_true in Hst.
+      assert (Hgap : P - d < tol * d).
+      { apply (Rmult_lt_compat_r d) in Hst; [|exact Hd]. unfold Rdiv in Hst.
+        rewrite Rmult_assoc, Rinv_l in Hst by lra. lra. }
+      nra.
+    - apply Rleb_true in Hst. nra.
+  Qed.
+
+  Lemma closed_gap_optimal w d :
+    lower_bound d -> oleb ROps (pobj_of ROps X yc lam w - d) (o0 ROps) = true ->
+    forall w', length w' = p -> pobj_of ROps X yc lam w <= pobj_of ROps X yc lam w'.
+  Proof.
+    intros Hlb Hst w' Hw'. cbn [oleb o0 ROps] in Hst. apply Rleb_true in Hst.
+    specialize (Hlb w' Hw'). lra.
   Qed.
 
   Lemma gap_stop_near_optimal fuel w d :
-    ip_loop ROps solver X yc lam tol fuel 0 (ip_init ROps p lam) = Some (w, ExitGap, d) -> 0 < d ->
+    ip_loop ROps solver X yc lam tol fuel 0 (ip_init ROps p lam) = Some (w, ExitGap, d) ->
+    0 <= tol -> 0 < d ->
     forall w', length w' = p -> pobj_of ROps X yc lam w <= (1 + tol) * pobj_of ROps X yc lam w'.
   Proof.
-    intros H Hd. destruct (ip_loop_result _ _ _ _ _ _ init_inv H) as [Hlb [_ [_ Hst]]].
+    intros H Htol Hd. destruct (ip_loop_result _ _ _ _ _ _ init_inv H) as [Hlb [_ [_ Hst]]].
     apply stop_test_near_optimal with (d := d); auto.
   Qed.
 End Run.
@@ -301,12 +314,12 @@ Proof. unfold lam_used. rewrite omax_R. pose proof c_eps_pos. pose proof (Rmax_r
 Lemma optimize_gen_near_optimal (solver : solver_t (T := R)) X y lam max_iter tol w d :
   length y = length X ->
   (forall k st z gap b dxu, solver k st z gap = Some (b, dxu) -> length dxu = (2 * ncols X)%nat) ->
-  optimize_gen ROps solver X y lam max_iter tol = Some (w, ExitGap, d) -> 0 < d ->
+  optimize_gen ROps solver X y lam max_iter tol = Some (w, ExitGap, d) -> 0 <= tol -> 0 < d ->
   forall w', length w' = ncols X ->
     lasso_objective ROps X (center ROps y) (lam_used lam) w
     <= (1 + tol) * lasso_objective ROps X (center ROps y) (lam_used lam) w'.
 Proof.
-  intros Hy Hs H Hd w' Hw'. unfold optimize_gen in H. fold (lam_used lam) in H.
+  intros Hy Hs H Htol Hd w' Hw'. unfold optimize_gen in H. fold (lam_used lam) in H.
   unfold lasso_objective.
   eapply gap_stop_near_optimal with (p := ncols X); try eassumption.
   - rewrite center_length. exact Hy.
